@@ -6,8 +6,8 @@ package bucketteer
 // prefix table).
 
 import (
-	"encoding/binary"
 	"io"
+	"math"
 	"os"
 
 	"github.com/rpcpool/yellowstone-faithful/indexmeta"
@@ -20,6 +20,7 @@ import (
 func VerifC05Prefix() {
 	p := [2]byte{verifU8("p0"), verifU8("p1")}
 	verifAssert(uint16ToPrefix(prefixToUint16(p)) == p, "C05.prefix: uint16ToPrefix(prefixToUint16(p)) != p")
+	verifAssert(prefixToUint16(p) == verifC05LE(p), "C05.prefix: bucket number is not the little-endian value of the first two signature bytes (files written before would be misread)")
 	u := verifU16("u")
 	verifAssert(prefixToUint16(uint16ToPrefix(u)) == u, "C05.prefix: prefixToUint16(uint16ToPrefix(u)) != u")
 
@@ -33,7 +34,7 @@ func VerifC05Prefix() {
 	}
 	// the hash went into the bucket that the reader's selection (sig[0], sig[1]) designates
 	for _, s := range sigs {
-		b := w.prefixToHashes[prefixToUint16([2]byte{s[0], s[1]})]
+		b := w.prefixToHashes[verifC05LE([2]byte{s[0], s[1]})]
 		hit := false
 		for _, h := range b {
 			hit = verifC05Or(hit, h == Hash(s))
@@ -55,31 +56,36 @@ func VerifC05Prefix() {
 	verifReach("end")
 }
 
-// verifC05RA: array-backed io.ReaderAt (a second ReaderAt implementation besides *os.File)
-type verifC05RA struct{ data []byte }
+// verifC05LE: the bucket number of a prefix as the format defines it (first two signature bytes,
+// little endian) — reference, independent of prefixToUint16.
+func verifC05LE(p [2]byte) uint16 { return uint16(p[0]) | uint16(p[1])<<8 }
 
-func (r *verifC05RA) ReadAt(p []byte, off int64) (int, error) {
-	if off < 0 || off >= int64(len(r.data)) {
-		return 0, io.EOF
+// verifC05EmptyLayout: offset table in which no prefix has a bucket.
+func verifC05EmptyLayout() *bucketToOffset {
+	l := new(bucketToOffset)
+	for i := range l {
+		l[i] = math.MaxUint64
 	}
-	n := copy(p, r.data[off:])
-	if n < len(p) {
-		return n, io.EOF
-	}
-	return n, nil
+	return l
 }
 
-// verifC05Bucket serialises one bucket the way the format defines it: u32 LE count, then the
-// hashes (u64 LE) in the eytzinger order produced by the real getCleanSet + sortWithCompare.
-func verifC05Bucket(hashes []uint64) []byte {
-	entries := getCleanSet(hashes)
-	sortWithCompare(entries, verifC05Cmp(entries))
-	out := make([]byte, 4+8*len(entries))
-	binary.LittleEndian.PutUint32(out, uint32(len(entries)))
-	for i, h := range entries {
-		binary.LittleEndian.PutUint64(out[4+8*i:], h)
+// verifC05OneBucketReader: a Reader whose content area is exactly one bucket, reachable under
+// prefix p (used by the pipeline lemmas in c05_pipeline.go; the table is not filled with the
+// "absent" marker there, which would cost 65 536 interpreted steps on each of thousands of paths).
+func verifC05OneBucketReader(bucket []byte, p [2]byte) *Reader {
+	l := new(bucketToOffset)
+	l[verifC05LE(p)] = 0
+	return &Reader{contentReader: &verifC05RA{data: bucket}, prefixToOffset: l}
+}
+
+// verifC05ReaderOver: a Reader over an arbitrary content ReaderAt with the given prefix -> offset
+// entries (every other prefix has no bucket).
+func verifC05ReaderOver(ra io.ReaderAt, offs map[[2]byte]uint64) *Reader {
+	l := verifC05EmptyLayout()
+	for p, o := range offs {
+		l[verifC05LE(p)] = o
 	}
-	return out
+	return &Reader{contentReader: ra, prefixToOffset: l}
 }
 
 // C05.has — the real Reader.Has (prefix selection, count, section reader, readUint64Le,
@@ -103,23 +109,21 @@ func VerifC05Has() {
 		sa[i] = mk(pA, "a")
 		ha[i] = Hash(sa[i])
 	}
-	if n > verifParam("perm", 2) {
-		for i := 1; i < n; i++ {
-			verifAssume(ha[i-1] < ha[i])
-		}
+	for i := 1; i < n; i++ {
+		verifAssume(ha[i-1] < ha[i]) // the bucket holds a clean set: strictly increasing
 	}
 	sb := mk(pB, "b")
 	content := verifBytes("junk.before", pad) // arbitrary bytes around the buckets: the answer must not depend on them
-	bucketA := verifC05Bucket(append([]uint64(nil), ha...))
-	bucketB := verifC05Bucket([]uint64{Hash(sb)})
+	bucketA := verifC05RefBucket(ha)
+	bucketB := verifC05RefBucket([]uint64{Hash(sb)})
 	offA := uint64(len(content))
 	content = append(content, bucketA...)
 	offB := uint64(len(content))
 	content = append(content, bucketB...)
 	content = append(content, verifBytes("junk.after", 9)...)
-	layout := newUint16LayoutPointer()
-	layout[prefixToUint16(pA)] = offA
-	layout[prefixToUint16(pB)] = offB
+	layout := verifC05EmptyLayout()
+	layout[verifC05LE(pA)] = offA
+	layout[verifC05LE(pB)] = offB
 	ra := &verifC05RA{data: content}
 	r := &Reader{contentReader: ra, prefixToOffset: layout}
 
@@ -162,7 +166,8 @@ func VerifC05File() {
 			avail = append(avail, i)
 		}
 	}
-	shape := verifC05Shapes[avail[verifChoice("shape", len(avail))]]
+	shapeIdx := avail[verifChoice("shape", len(avail))]
+	shape := verifC05Shapes[shapeIdx]
 	sigs := make([][64]byte, len(shape))
 	for i, pi := range shape {
 		var s [64]byte
@@ -170,6 +175,24 @@ func VerifC05File() {
 		s[0], s[1] = p[0], p[1]
 		copy(s[2:8], verifBytes("s", 6))
 		sigs[i] = s
+		w.Put(s)
+	}
+	// concrete-hash extras (no forks): "extra"=1: bucket 0x0000 additionally receives hashes in
+	// DESCENDING put order with one signature put TWICE (a duplicate in the first bucket shifts
+	// nothing in later buckets), bucket 0x1234 (bytes 34 12) receives a pair in ascending order;
+	// "big"=n: bucket 0x00ff receives n further signatures (count / size arithmetic at 255..257, 65535..65537)
+	var extra [][64]byte
+	if verifParam("extra", 0) == 1 && shapeIdx == 9 {
+		for _, id := range []uint64{9, 4, 9, 2} {
+			extra = append(extra, verifC05ConcSig(verifC05Prefixes[0], id))
+		}
+		extra = append(extra, verifC05ConcSig(verifC05Prefixes[7], 1), verifC05ConcSig(verifC05Prefixes[7], 7))
+	}
+	big := verifParam("big", 0)
+	for i := 0; i < big; i++ {
+		extra = append(extra, verifC05ConcSig(verifC05Prefixes[5], uint64(i^1)))
+	}
+	for _, s := range extra {
 		w.Put(s)
 	}
 	if verifParam("ordered", 1) == 1 {
@@ -186,6 +209,18 @@ func VerifC05File() {
 	var meta indexmeta.Meta
 	if verifParam("meta", 1) == 1 {
 		verifAssert(meta.Add(verifBytes("mk", 2), verifBytes("mv", 3)) == nil, "C05.file: meta.Add failed")
+	}
+	if verifParam("meta", 1) == 2 {
+		// the largest metadata the writer accepts: 255 pairs with 255-byte keys and values (a sealed
+		// file with it must still be accepted by the reader's header-size bound)
+		for i := 0; i < indexmeta.MaxNumKVs; i++ {
+			k := make([]byte, indexmeta.MaxKeySize)
+			v := make([]byte, indexmeta.MaxValueSize)
+			for j := range k {
+				k[j], v[j] = byte(i), byte(i+j)
+			}
+			verifAssert(meta.Add(k, v) == nil, "C05.file: meta.Add refused a pair within the documented limits")
+		}
 	}
 	// the query signature (prefix: one of the used prefixes or an unused one)
 	qset := []int{7}
@@ -213,17 +248,48 @@ func VerifC05File() {
 	verifAssert(w.Close() == nil, "C05.file: Close failed")
 	_ = size
 
-	f, err := os.Open(path)
-	verifAssert(err == nil, "C05.file: open failed")
-	r, err := NewReader(f)
-	verifAssert(err == nil, "C05.file: NewReader failed on a file the writer sealed")
+	var r *Reader
+	if m := verifParam("mmap", 0); m == 1 || (m == 2 && shapeIdx%2 == 1) {
+		r, err = Open(path) // the server's entry point: isEmptyFile + mmap.Open + NewReader
+		verifAssert(err == nil, "C05.file: Open failed on a file the writer sealed")
+	} else {
+		f, err := os.Open(path)
+		verifAssert(err == nil, "C05.file: open failed")
+		r, err = NewReader(f)
+		verifAssert(err == nil, "C05.file: NewReader failed on a file the writer sealed")
+	}
 	for _, s := range sigs {
 		ok, err := r.Has(s)
 		verifAssert(err == nil, "C05.file: Reader.Has failed")
 		verifAssert(ok, "C05.file: signature put before sealing is reported absent (false negative)")
+		verifAssert(w.Has(s), "C05.file: Writer.Has forgets a signature after Seal")
+	}
+	step := 1
+	if len(extra) > 600 {
+		step = 97 // sample a large bucket: every 97th signature, plus the last 3
+	}
+	for i, s := range extra {
+		if i%step != 0 && i < len(extra)-3 {
+			continue
+		}
+		ok, err := r.Has(s)
+		verifAssert(err == nil, "C05.file: Reader.Has failed (concrete-hash signature)")
+		verifAssert(ok, "C05.file: signature put before sealing is reported absent (false negative, concrete-hash signature)")
+	}
+	if len(extra) > 0 {
+		// concrete hashes that were never put: below, between and above the stored ones
+		for _, pi := range []int{0, 5, 7} {
+			for _, id := range []uint64{1 << 40, 3, 1<<40 + 1} {
+				s := verifC05ConcSig(verifC05Prefixes[pi], id)
+				ok, err := r.Has(s)
+				verifAssert(err == nil, "C05.file: Reader.Has failed (absent concrete-hash signature)")
+				verifAssert(ok == w.Has(s), "C05.file: Writer.Has and the sealed file disagree (concrete-hash signature)")
+				verifAssert(!ok || (pi == 5 && id == 3 && big > 3), "C05.file: a hash that was never put is reported present")
+			}
+		}
 	}
 	exp := false
-	for _, s := range sigs {
+	for _, s := range append(append([][64]byte(nil), sigs...), extra...) {
 		if s[0] == q[0] && s[1] == q[1] {
 			exp = verifC05Or(exp, Hash(s) == Hash(q))
 		}
@@ -242,6 +308,10 @@ func VerifC05File() {
 			same = verifC05And(same, m.KeyVals[0].Value[i] == meta.KeyVals[0].Value[i])
 		}
 		verifAssert(same, "C05.file: metadata bytes not preserved")
+	} else if verifParam("meta", 1) == 2 {
+		verifAssert(m != nil && len(m.KeyVals) == indexmeta.MaxNumKVs, "C05.file: maximal metadata: number of pairs lost")
+		last := m.KeyVals[indexmeta.MaxNumKVs-1]
+		verifAssert(len(last.Key) == indexmeta.MaxKeySize && len(last.Value) == indexmeta.MaxValueSize && last.Key[7] == 254 && last.Value[254] == 252, "C05.file: maximal metadata: last pair not preserved")
 	} else {
 		verifAssert(m != nil && len(m.KeyVals) == 0, "C05.file: metadata appeared from nowhere")
 	}
@@ -257,14 +327,16 @@ func VerifC05File() {
 
 // shapes: prefix index (into verifC05Prefixes) of each put signature
 var verifC05Shapes = [][]int{
-	0: {0, 0, 3},          // two in the first bucket (0x0000), one in the last (0xffff)
-	1: {},                 // empty index
-	2: {1},                // single signature
-	3: {1, 2, 1, 2, 1},    // 3 + 2 in the two byte orders of 1
-	4: {3, 3, 3, 3},       // four in the last bucket
-	5: {0, 1, 2, 3, 4, 5}, // one each in six buckets
-	6: {4, 4, 4, 4, 4, 4, 4, 5}, // 7 + 1
-	7: {2, 1, 2},          // 2 + 1, candidates for arbitrary put order
-	8: {1, 0, 0, 0},       // one in bucket 0x0001 (LE), then three in its predecessor bucket 0x0000: more than the
+	0:  {0, 0, 3},                // two in the first bucket (0x0000), one in the last (0xffff)
+	1:  {},                       // empty index
+	2:  {1},                      // single signature
+	3:  {1, 2, 1, 2, 1},          // 3 + 2 in the two byte orders of 1
+	4:  {3, 3, 3, 3},             // four in the last bucket
+	5:  {0, 1, 2, 3, 4, 5},       // one each in six buckets
+	6:  {4, 4, 4, 4, 4, 4, 4, 5}, // 7 + 1
+	7:  {2, 1, 2},                // 2 + 1, candidates for arbitrary put order
+	9:  {1, 2, 2, 3, 3, 3},       // quick single path (with the concrete-hash extras): populations 1, 2, 3 in buckets 0x0001, 0x0100, 0xffff
+	10: {3, 3, 3},                // three in the last bucket, candidates for arbitrary put order (13 order/tie patterns)
+	8:  {1, 0, 0, 0},             // one in bucket 0x0001 (LE), then three in its predecessor bucket 0x0000: more than the
 	//                        (rewritten) initial capacity 2, so an append that grows past the capacity must not touch the neighbour
 }
